@@ -246,7 +246,9 @@ def _round(x, n=None):
     if isinstance(x, SR):
         if x.is_conc:
             return builtins.round(x.v, n) if n is not None else builtins.round(x.v)
-        raise core.Abort("unsupported", "round() of a symbolic value")
+        if n is None:
+            return int(x.rint().v)        # builtin round(x): nearest integer, ties to even
+        raise core.Abort("unsupported", "round(x, n) of a symbolic value")
     return builtins.round(x, n) if n is not None else builtins.round(x)
 
 
